@@ -28,6 +28,9 @@ def include_case(sc):
                 lines = lines + ['#include "main.asm"\n']
         return f'.byte {MARK[node]}\n' + ''.join(lines)
     files['d0/main.asm'] = text('main')
+    if not sc.get('backedge') and len(str(sc['incs'])) % 2 == 0:
+        # preprocessor symbols named like the words of the include lines: a file name is not program text, nothing is substituted in it
+        files['d0/main.asm'] = '#define asm 7\n#define main 8\n#define include 9\n' + files['d0/main.asm']
     for f, dirs in sc['place'].items():
         for d in dirs:
             files[f'{d}/{f}.asm'] = text(f)
@@ -59,6 +62,10 @@ def eval_include_cli(sc):
     """The same configuration through the command line, typed from inside the project directory with relative paths, and with the
     main file's own directory also named by -I (it is searched anyway, so naming it changes nothing)."""
     case = dict(include_case(sc), relative_paths=True)
+    if len(str(sc['place'])) % 3 == 0:
+        # a search directory whose name contains the character that separates the entries of a PATH-like list: -I names ONE directory
+        case['files'] = {(k.replace('d1/', 'd1:v2/', 1) if k.startswith('d1/') else k): v for k, v in case['files'].items()}
+        case['include_dirs'] = [d.replace('d1', 'd1:v2') for d in case['include_dirs']]
     if len(str(sc)) % 2:
         case['include_dirs'] = list(case['include_dirs']) + ['d0']
     else:
